@@ -102,7 +102,7 @@ Lemma find_bwd_spec : forall f mp l top j,
 Proof.
   induction l as [|x t IH]; cbn; intros top j Hl H; [discriminate|].
   destruct (check_glyph_property f x mp) eqn:E.
-  - inversion H; subst. rewrite Nat.sub_diag. repeat split; try lia; auto. intros; lia.
+  - inversion H; subst. rewrite Nat.sub_diag. repeat split; try lia; auto.
   - destruct top as [|top'].
     + destruct t; cbn in *; [discriminate | lia].
     + cbn in H. apply IH in H; [|lia]. destruct H as (Hr & Hc & Hs).
@@ -196,9 +196,20 @@ Lemma pair_adjust_spec : forall d ps i j v1 v2,
   length (pair_adjust d ps i j v1 v2) = length ps.
 Proof.
   intros d ps i j v1 v2 Hij. unfold pair_adjust.
-  destruct (vr_is_empty v1) eqn:E1, (vr_is_empty v2) eqn:E2;
-    repeat rewrite ?getp_upd_same, ?getp_upd_other, ?length_upd, ?apply_vr_zero by (rewrite ?length_upd; lia || assumption);
-    repeat split; auto; try (intros; repeat rewrite getp_upd_other by congruence; reflexivity).
+  destruct (vr_is_empty v1) eqn:E1; destruct (vr_is_empty v2) eqn:E2.
+  - rewrite !apply_vr_zero by assumption. repeat split; auto.
+  - rewrite (apply_vr_zero d v1) by assumption.
+    rewrite getp_upd_other by lia. rewrite getp_upd_same by lia. rewrite length_upd.
+    repeat split; auto. intros. apply getp_upd_other. congruence.
+  - rewrite (apply_vr_zero d v2) by assumption.
+    rewrite getp_upd_same by lia. rewrite getp_upd_other by lia. rewrite length_upd.
+    repeat split; auto. intros. apply getp_upd_other. congruence.
+  - rewrite !length_upd.
+    rewrite (getp_upd_other (upd ps i (apply_vr d v1 (getp ps i))) j i) by lia.
+    rewrite getp_upd_same by lia.
+    rewrite getp_upd_same by (rewrite length_upd; lia).
+    rewrite getp_upd_other by lia.
+    repeat split; auto. intros. rewrite !getp_upd_other by congruence. reflexivity.
 Qed.
 
 (* C07_pair: a pair adjustment that applies selects the current glyph i (covered) and the next glyph
@@ -220,7 +231,7 @@ Lemma pair_apply_exact : forall f mp d st infos s s',
     length (g_ps s') = length (g_ps s) /\ g_attach s' = g_attach s.
 Proof.
   unfold apply_pair. intros f mp d st infos s s' Hlen H.
-  destruct (pair_covered st (gid (geti infos (g_idx s)))); cbn in H; [|discriminate].
+  destruct (pair_covered st (gid (geti infos (g_idx s)))); cbn [negb] in H; [|discriminate].
   destruct (skip_next f mp infos (g_idx s)) as [j|] eqn:Ej; [|discriminate].
   destruct (pair_records st _ _) as [[v1 v2]|] eqn:Er; [|discriminate].
   inversion H; subst; clear H. cbn.
